@@ -1,3 +1,34 @@
-From Sigtools.Model Require Import Base Bind Algebra.
-Theorem C08_placeholder : True. Proof. exact I. Qed.
-Print Assumptions C08_placeholder.
+(* C08 — parameter provenance is complete, truthful and depth-ordered. *)
+From Sigtools.Model Require Import Base Bind Roles Algebra.
+From Sigtools.Proofs Require Import Prov.
+
+(* merge_depths keeps, for every callable, the smallest depth listed on either side *)
+Theorem C08_depths_min l r f :
+  dep_get (merge_depths l r) f = opt_min (dep_get l f) (rmin r f).
+Proof. exact (merge_depths_get l r f). Qed.
+Print Assumptions C08_depths_min.
+
+Theorem C08_depths_defined l r f :
+  dep_get l f <> None \/ rmin r f <> None -> dep_get (merge_depths l r) f <> None.
+Proof. exact (merge_depths_defined l r f). Qed.
+Print Assumptions C08_depths_defined.
+
+(* embedding at step k > 0 puts every callable of the inner signature strictly deeper *)
+Theorem C08_depth_increase k d f v :
+  (0 < k)%N -> dep_get d f = Some v ->
+  exists v', dep_get (dep_incr k d) f = Some v' /\ (v < v')%N.
+Proof. exact (embed_depth_increase k d f v). Qed.
+Print Assumptions C08_depth_increase.
+
+(* a removed parameter keeps no provenance entry *)
+Theorem C08_removed_has_no_entry m ks k :
+  src_mem (src_pop_all m ks) k = src_mem m k && negb (mem k ks).
+Proof. exact (src_pop_all_mem m ks k). Qed.
+Print Assumptions C08_removed_has_no_entry.
+
+(* _add_sources appends: the provenance list of a merged parameter is the
+   concatenation of the operands' lists, nothing else changes *)
+Theorem C08_add_sources m k vs k' :
+  src_get (src_add m k vs) k' = if N.eqb k' k then src_get m k ++ vs else src_get m k'.
+Proof. exact (src_get_add m k vs k'). Qed.
+Print Assumptions C08_add_sources.
